@@ -3,6 +3,8 @@ package props
 import (
 	"fmt"
 	"go/token"
+	"go/types"
+	"os"
 	"strings"
 
 	"golang.org/x/tools/go/ssa"
@@ -165,7 +167,7 @@ func C07(c *Ctx) {
 					case "SubmitTime":
 						ok = submitTimeOK(c, h, v)
 					default:
-						ok = isMsgField(v, src)
+						ok = isMsgFieldAll(v, src)
 					}
 				}
 				r.Require(ok, "A7.record-fields", rm.M+"."+f, pos(c, in.Eff.Site), "stored record field "+f+" originates from "+src, f+" = "+d)
@@ -398,7 +400,7 @@ func C09(c *Ctx) {
 							}
 						}
 					default:
-						ok = isMsgField(v, src)
+						ok = isMsgFieldAll(v, src)
 					}
 				}
 				r.Require(ok, "A7.registration-fields", rm.M+"."+f, pos(c, in.Eff.Site), "registration field "+f+" is set from "+src, f+" = "+d)
@@ -458,7 +460,10 @@ func C08(c *Ctx) {
 		"(A2) in the purchase handler every state-changing step is guarded by the owner predicate (C13), by not(limit+number > params.MaxStorageLimit) and by the wrap check not(limit+number < limit), where limit is the stored limit of the registration named in the message; the stored new limit is exactly that checked sum, under the key of that id; " +
 		"(A9, sink-scoped) every uint64 +/- on message/state/param values in the functions reachable from the record and purchase handlers and the storage query is range-guarded by a dominating comparison (or is a ±1 counter step whose decrement is guarded by count > limit); " +
 		"(A3) in the record step the record write is followed by count+1, and a prune (delete) is always paired with count-1 and an update of the lowest/first marker, the decrement never occurring without a delete; (A7) the storage query reports the keeper's saturating remaining-capacity value. 'Exactly the newest min(total, limit) records' is inductive and not decided."
-	r.Rules = []string{"A1.limit-writers", "A2.purchase-guards", "A7.new-limit", "A9.uint64-range", "A3.prune-pairing", "A11.iter-end-bound", "A7.max-purchasable"}
+	r.Rules = []string{"A1.limit-writers", "A2.purchase-guards", "A7.new-limit", "A9.uint64-range", "A3.prune-pairing", "A11.iter-end-bound", "A7.max-purchasable", "A3.lost-update"}
+	lostUpdateControl(c)
+	r.Floor("functions of wrkchain scanned for dropped updates to record copies", lostUpdates(c, "wrkchain"), 20)
+	r.Floor("functions of beacon scanned for dropped updates to record copies", lostUpdates(c, "beacon"), 20)
 	r.Trusted = []string{"the ante max-slot check is only an early reject; the handler is the authority"}
 	r.NotDecided = []string{"exactly the newest min(total, limit) records are retained (inductive, numeric)", "behaviour after governance lowers limits below current usage"}
 	for _, rm := range recMods {
@@ -875,8 +880,35 @@ func prunePairing(c *Ctx, rm recMod) {
 			}
 			return nil
 		}
+		// the same clause stated on values: at every occurrence of the registration re-store, the count stored is the
+		// loaded count + (1 if a record was written on the way) - (1 if one was deleted) — however it was computed (a
+		// plan worked out before the writes, say); and after a delete the marker stored is never the loaded one
+		// (the pruning step counts as a whole: a delete helper that skips an absent key is still the delete step)
+		dlStep := func(in ssa.Instruction) bool {
+			if isDl(in) {
+				return true
+			}
+			if call, ok := in.(ssa.CallInstruction); ok {
+				for _, t := range w.CalleesOf(call) {
+					if reachesEffect(c, t, isD) && !reachesEffect(c, t, isW) {
+						return true
+					}
+				}
+			}
+			return false
+		}
+		balanced, lowFresh, lowDetail := countBalance(c, rm, f, isWr, dlStep, isRe)
+		if lowFresh != "" {
+			r.Require(lowFresh == "ok", "A3.prune-pairing", rm.M+"|pruned-marker-moves|"+fn(f), w.Pos(f.Pos()), "after a record was deleted the "+rm.Lowest+" marker stored is not the loaded one (which names the deleted record)", lowDetail)
+		}
 		// after the record write, every path to the registration re-store passes count+1
 		bad := afterNeeds(isWr, isInc)
+		if balanced && (bad != nil || nInc == 0 || afterNeeds(isDl, isDec) != nil || nDec == 0) {
+			r.OK("A3.prune-pairing", rm.M+"|count-balance|"+fn(f), w.Pos(f.Pos()), "the stored "+rm.Count+" is the loaded one +1 per record written and -1 per record deleted on the way, at every occurrence of the re-store")
+			bad = afterNeeds(isDl, isLow)
+			r.Require(bad == nil && nLow > 0, "A3.prune-pairing", rm.M+"|delete->lowest|"+fn(f), w.Pos(f.Pos()), "after pruning, the "+rm.Lowest+" marker is updated before the registration is stored", "a path stores the registration without updating it")
+			continue
+		}
 		r.Require(bad == nil && nInc > 0, "A3.prune-pairing", rm.M+"|write->count+1|"+fn(f), w.Pos(f.Pos()), "a recorded item is always counted ("+rm.Count+" + 1) before the registration is stored", "a path stores the registration without the increment")
 		bad = afterNeeds(isDl, isDec)
 		r.Require(bad == nil && nDec > 0, "A3.prune-pairing", rm.M+"|delete->count-1|"+fn(f), w.Pos(f.Pos()), "a pruned record is always un-counted ("+rm.Count+" - 1) before the registration is stored", "a path stores the registration without the decrement")
@@ -926,4 +958,151 @@ func isCustomModule(m string) bool {
 		}
 	}
 	return false
+}
+
+// countBalance judges the counters of a registration on the flat view of f, occurrence by occurrence of the registration
+// re-store (told apart by which record writes / deletes were executed on the way and by what the helpers on the way
+// returned): balanced = the count stored is always loaded count + writes - deletes; low = "ok" / "bad" / "" (not
+// resolvable): after a delete the marker stored is never the loaded marker.
+func countBalance(c *Ctx, rm recMod, f *ssa.Function, isWr, isDl, isRe func(ssa.Instruction) bool) (balanced bool, low string, lowDetail string) {
+	w := c.W
+	root := w.FlatRoot(f)
+	cut := &ir.FlatCut{Mark: func(_ *ir.FCtx, in ssa.Instruction) bool { return isWr(in) || isDl(in) }}
+	var occ []ir.FPos
+	w.FlatWalk(root, nil, cut, func(p ir.FPos) bool {
+		if isRe(p.In) {
+			occ = append(occ, p)
+		}
+		return true
+	})
+	if len(occ) == 0 {
+		return false, "", ""
+	}
+	// the value stored into field `field` of the registration handed to the re-store: found in the context, on the way
+	// down to the re-store, that passes a registration loaded from a local record as an argument
+	fieldValue := func(p ir.FPos, field string) (*ir.FCtx, ssa.Instruction, ssa.Value) {
+		for ctx := p.Ctx; ctx != nil && ctx.Call != nil; ctx = ctx.Up {
+			for _, a := range ctx.Call.Common().Args {
+				u, ok := a.(*ssa.UnOp)
+				if !ok {
+					continue
+				}
+				al, ok := u.X.(*ssa.Alloc)
+				if !ok {
+					continue
+				}
+				st, ok := al.Type().Underlying().(*types.Pointer).Elem().Underlying().(*types.Struct)
+				if !ok {
+					continue
+				}
+				for i := 0; i < st.NumFields(); i++ {
+					if st.Field(i).Name() == field {
+						if v := ir.FieldValueAt(al, i, u); v != nil {
+							return ctx.Up, u, v
+						}
+						return nil, nil, nil
+					}
+				}
+			}
+		}
+		return nil, nil, nil
+	}
+	consistentAlts := func(p ir.FPos, ctx *ir.FCtx, at ssa.Instruction, v ssa.Value) []*ir.Expr {
+		var out []*ir.Expr
+		for _, a := range altsAtCtx(c, root, ctx, 0, at, v) {
+			rt, isRet := a.Pos.In.(*ssa.Return)
+			if a.Pos.Ctx == ctx || !isRet || p.ConsistentReturn(w, a.Pos.Ctx, rt) {
+				out = append(out, w.Expand(a.E, 3))
+			}
+		}
+		return out
+	}
+	balanced = true
+	low = "ok"
+	for _, p := range occ {
+		want := 0
+		if p.PassedAny(isWr) {
+			want++
+		}
+		deleted := p.PassedAny(isDl)
+		if deleted {
+			want--
+		}
+		ctx, at, v := fieldValue(p, rm.Count)
+		if os.Getenv("MCDEBUG") == "bal" {
+			fmt.Fprintln(os.Stderr, "bal occ", fn(f), strings.Join(p.Ctx.Chain(), ">"), "want", want, "deleted", deleted, "v", v, "facts", p.FactsString())
+			if v != nil {
+				for _, e := range consistentAlts(p, ctx, at, v) {
+					fmt.Fprintln(os.Stderr, "   alt", e.String())
+				}
+			}
+		}
+		if v == nil {
+			balanced = false
+		} else {
+			alts := consistentAlts(p, ctx, at, v)
+			if len(alts) == 0 {
+				balanced = false
+			}
+			fits := func(a *ir.Expr) bool {
+				base, k, ok := linearForm(a)
+				if !ok || k != want {
+					return false
+				}
+				_, isState := allStateField(c, base, rm.SecReg, rm.Count)
+				return isState
+			}
+			for _, e := range alts {
+				if fits(e) {
+					continue
+				}
+				for _, a := range e.Alts() {
+					if a.Op != "zero" && !fits(a) || len(e.Alts()) == 1 {
+						balanced = false
+					}
+				}
+			}
+		}
+		if deleted {
+			ctx, at, v := fieldValue(p, rm.Lowest)
+			if v == nil {
+				if low == "ok" {
+					low = ""
+				}
+				continue
+			}
+			for _, e := range consistentAlts(p, ctx, at, v) {
+				for _, a := range e.Alts() {
+					if _, isState := allStateField(c, a, rm.SecReg, rm.Lowest); isState {
+						low = "bad"
+						lowDetail = "after the delete the stored " + rm.Lowest + " can be the loaded " + rm.Lowest + " (" + a.String() + ")"
+					}
+				}
+			}
+		}
+	}
+	return balanced, low, lowDetail
+}
+
+// linearForm: e = base + k for an integer constant k (nested +/- of constants folded).
+func linearForm(e *ir.Expr) (*ir.Expr, int, bool) {
+	e = stripConvE(e)
+	k := 0
+	for e != nil && e.Op == "bin" && (e.Name == "+" || e.Name == "-") && len(e.Args) == 2 {
+		cst := e.Args[1]
+		if cst.Op != "const" {
+			break
+		}
+		var n int
+		if _, err := fmt.Sscanf(cst.Name, "%d", &n); err != nil {
+			return nil, 0, false
+		}
+		if e.Name == "+" {
+			k += n
+		} else {
+			k -= n
+		}
+		e = stripConvE(e.Args[0])
+	}
+	return e, k, e != nil
 }
